@@ -134,6 +134,18 @@ def fixed():
             checks.append(dict({"op": "create", "at": "", "h": ["md5"], "now": "2026-03-01 12:30:00"}, **kw))
             out.append({"profile": "c03-three-levels", "root": "root", "tree": tree, "ops": seal + mut + checks,
                         "c03": {"altered": [], "removed": [victim] if victim else [], "added": [], "patterns": [], "late_pattern": None, "n_seal": 3, "n_mut": len(mut)}})
+    # a nested history below a folder whose name begins with a dot is a nested history like any other
+    for variant in ("alter", "resealed-child"):
+        tree = {".proxies/day1/p.txt": "p", ".proxies/day1/q.txt": "q", "top.txt": "t"}
+        seal = [{"op": "create", "at": ".proxies/day1", "h": ["md5"], "now": "2026-03-01 12:00:01"}, {"op": "create", "at": "", "h": ["md5"], "now": "2026-03-01 12:00:02"}]
+        if variant == "alter":
+            mut, truth = [{"op": "write", "path": ".proxies/day1/p.txt", "data": "ALTERED"}], {"altered": [".proxies/day1/p.txt"], "removed": [], "added": []}
+        else:
+            # a file added to the nested folder and sealed THERE: seen from the outer folder nothing is new
+            mut, truth = [{"op": "write", "path": ".proxies/day1/late.txt", "data": "l"}, {"op": "create", "at": ".proxies/day1", "h": ["md5"], "now": "2026-03-01 12:00:03"}], {"altered": [], "removed": [], "added": []}
+        out.append({"profile": "c03-dot-folder-history", "root": "root", "tree": tree,
+                    "ops": seal + mut + [{"op": "verify", "at": ""}, {"op": "diff", "at": ""}, {"op": "create", "at": "", "h": ["md5"], "now": "2026-03-01 12:30:00"}],
+                    "c03": dict(truth, patterns=[], late_pattern=None, n_seal=2, n_mut=len(mut))})
     # the whole folder of a nested history removed (its ascmhl folder with it): the enclosing history recorded the folder
     for nodh in (False, True):
         kw = {"n": True} if nodh else {}
